@@ -68,8 +68,7 @@ let obs_of_events (evs : event list) (reads : int) : string =
   Buffer.contents out
 
 (* parse an implementation observation back into events for the monitor.
-   The H: field (bytes seen by the backend) becomes one ToHost placed before the
-   End event (or last). N: is the number of transport reads performed. *)
+   The H: field (bytes seen by the backend) becomes one ToHost event. N: is the number of transport reads performed. *)
 let events_of_obs (s : string) : event list * int =
   let toks = List.filter (fun t -> t <> "") (split_on ' ' s) in
   let host = ref None and reads = ref (-1) in
@@ -87,12 +86,16 @@ let events_of_obs (s : string) : event list * int =
       | ["E"; "ok"] -> Some (End EndClosed)
       | ["E"; _] -> Some (End EndReadErr)
       | _ -> failwith ("bad event token " ^ t)) toks in
+  (* bytes seen by the backend are not ordered against the responses by the
+     observation; they are placed right after the channel-create success (the
+     earliest point at which the property allows them) or, when there was no
+     such response, at the very end where the monitor rejects them *)
   let evs = match !host with
     | None -> evs
     | Some h ->
       let rec ins = function
         | [] -> [h]
-        | (End _ as e) :: rest -> h :: e :: rest
+        | (Resp (ty, st, _) as e) :: rest when ty = Model.pKT_TYPE_CHANNEL_RESPONSE && st = N0 -> e :: h :: rest
         | e :: rest -> e :: ins rest in
       ins evs in
   (evs, !reads)
@@ -141,9 +144,10 @@ let handle (fields : string list) : string * string =
         else "fail:handshake-response"
       | _ -> "fail:no-response" in
     (m, verdict)
-  | "process" :: bits :: redir :: idle :: items :: impl :: [] ->
+  | "process" :: bits :: redir :: idle :: live :: items :: impl :: [] ->
     let cfg = parse_cfg bits redir idle in
-    let items = parse_items items in
+    let live = if live = "-" then [] else List.map bytes_of_hex (split_on ',' live) in
+    let items = Model.resolve_dials live cfg Model.tstate0 (parse_items items) in
     let m = obs_of_events (Model.run cfg items) (int_of_nat (Model.consumed cfg items)) in
     let (ievs, _) = events_of_obs impl in
     let verdict = match Model.first_reject cfg.c_cookie_cb cfg.c_host_cb Model.mon0 ievs O with
